@@ -90,6 +90,22 @@ def r3(rep, prog):
                     A.append((fid, bi))
     rep.extra["whitespace_predicates"] = {"ascii_only_sites": len(A), "unicode_sites": len(U)}
     rep.check(len(U) + len(A) >= 5, R, "white-space tests found in the grammar", "%d ASCII-only, %d Unicode" % (len(A), len(U)), "cannot establish: no white-space predicate found in query-grammar")
+    # keywords followed by a hard-coded blank: `tag("AND ")` is an ASCII-space-only separator in disguise
+    KW = []
+    for fid in sorted(prog.bodies):
+        if not fid.startswith(("tantivy_query_grammar::", "<tantivy_query_grammar::")) or "::tests::" in fid or "::test::" in fid:
+            continue
+        b = prog.bodies[fid]
+        for bi, t in b.calls():
+            if re.search(r"nom::bytes::complete::tag", t.get("f") or ""):
+                for o in t.get("args", []):
+                    lit = o.get("str") if isinstance(o, dict) else None
+                    if lit and len(lit) > 1 and lit != lit.rstrip():
+                        KW.append((fid, bi, lit))
+    rep.check(not KW, R, "no keyword parser hard-codes its trailing blank", "tag(..) literals end with the keyword",
+              "query-grammar matches %s with nom `tag`: the white space after the keyword is a literal U+0020, so the same keyword followed by a tab or a newline (a query typed on two lines) is not the operator — "
+              "the strict parser rejects `a AND\\tb`, the lenient one silently searches `AND` / `NOT` as a word (`(*a *AND *b)`), and strict and lenient disagree on `NOT\\ta`" % sorted({repr(k[2]) for k in KW}),
+              site=site(prog.bodies[KW[0][0]], KW[0][1]) if KW else "")
     both = bool(A) and bool(U)
     site_ = site(prog.bodies[A[0][0]], A[0][1]) if A else ""
     rep.check(not both, R, "separator parsers and word parsers agree on what white space is", "one predicate (%s)" % ("char::is_whitespace" if U else "ASCII"),
